@@ -66,6 +66,7 @@ class PelContract:
         self.calls = []
 
     def __call__(self, it, func, args, kwargs, node):
+        it.no_merge()           # the record below is not undone by the trail: the two outcomes of a merged `if` are explored apart
         arr, n = heap.list_view(args[1])
         res = Obj(ClassVal('PelResult', None, 'plain'), {})
         res.pel_index = len(self.calls)
@@ -313,6 +314,7 @@ def verify_pel(run, tier, sess, prefix_root='C04'):
                 it_.raise_if(z3.Not(self.py_contains(it_, k)), 'KeyError', 'handler-table-key', node)
 
                 def h(it__, args, kw, n):
+                    it__.no_merge()
                     r = Obj(ClassVal('Trace', None, 'plain'), {})
                     calls.append((t, args, r))
                     return r
